@@ -1,12 +1,512 @@
-//! C13 - not built yet.
-use crate::run::Ctx;
-use serde_json::Value;
+//! C13 - wall clock <-> instant conversion follows the zone's offsets and the options.
 
-pub fn run(_ctx: &mut Ctx) {
-    eprintln!("property C13 has no check yet");
-    std::process::exit(2);
+use crate::chk;
+use crate::conv::*;
+use crate::refm::civil::*;
+use crate::refm::dateadd::Dt;
+use crate::refm::fmt::{self, Prec};
+use crate::refm::round::{round_int, Mode};
+use crate::refm::tz::{Disamb, Zone, S};
+use crate::run::*;
+use crate::tzp::TableProvider;
+use proptest::prelude::*;
+use serde::{Deserialize, Serialize};
+use serde_json::Value;
+use std::str::FromStr;
+use temporal_rs::error::ErrorKind;
+use temporal_rs::options::{Disambiguation, OffsetDisambiguation};
+use temporal_rs::partial::{PartialDate, PartialTime, PartialZonedDateTime};
+use temporal_rs::{TimeZone, UtcOffset, ZonedDateTime};
+
+const DAY: i128 = NS_PER_DAY;
+
+#[derive(Serialize, Deserialize, Debug, Clone, Copy, PartialEq, Eq)]
+pub enum OffOpt {
+    Use,
+    Prefer,
+    Ignore,
+    Reject,
+}
+pub fn conv_dis(d: Disamb) -> Disambiguation {
+    match d {
+        Disamb::Compatible => Disambiguation::Compatible,
+        Disamb::Earlier => Disambiguation::Earlier,
+        Disamb::Later => Disambiguation::Later,
+        Disamb::Reject => Disambiguation::Reject,
+    }
+}
+fn conv_off(o: OffOpt) -> OffsetDisambiguation {
+    match o {
+        OffOpt::Use => OffsetDisambiguation::Use,
+        OffOpt::Prefer => OffsetDisambiguation::Prefer,
+        OffOpt::Ignore => OffsetDisambiguation::Ignore,
+        OffOpt::Reject => OffsetDisambiguation::Reject,
+    }
 }
 
-pub fn replay(_ctx: &mut Ctx, _sub: &str, _case: &Value) -> bool {
-    false
+/// how the zone reaches the crate
+#[derive(Serialize, Deserialize, Debug, Clone, PartialEq, Eq)]
+pub enum ZoneKind {
+    /// `TimeZone::UtcOffset` (minutes), no provider involved
+    Fixed(i32),
+    /// named zone served by the harness provider from this rule table
+    Table(Zone),
+}
+impl ZoneKind {
+    pub fn zone(&self) -> Zone {
+        match self {
+            ZoneKind::Fixed(m) => Zone::fixed("fixed", *m as i64 * 60),
+            ZoneKind::Table(z) => z.clone(),
+        }
+    }
+    pub fn timezone(&self) -> TimeZone {
+        match self {
+            ZoneKind::Fixed(m) => TimeZone::try_from_identifier_str(&fmt::offset_minutes(*m as i64)).expect("offset zone"),
+            ZoneKind::Table(z) => TimeZone::IanaIdentifier(z.name.clone()),
+        }
+    }
+    pub fn provider(&self) -> TableProvider {
+        match self {
+            ZoneKind::Fixed(_) => TableProvider::utc_only(),
+            ZoneKind::Table(z) => TableProvider::new(vec![z.clone()]),
+        }
+    }
+    pub fn ident(&self) -> String {
+        match self {
+            ZoneKind::Fixed(m) => fmt::offset_minutes(*m as i64),
+            ZoneKind::Table(z) => z.name.clone(),
+        }
+    }
+}
+
+#[derive(Serialize, Deserialize, Debug, Clone, Copy, PartialEq, Eq)]
+pub enum Given {
+    None,
+    Z,
+    /// explicit offset in seconds
+    Offset(i64),
+}
+
+#[derive(Serialize, Deserialize, Debug, Clone, Copy, PartialEq, Eq)]
+pub enum Route {
+    /// ZonedDateTime getters of an instant
+    Getters,
+    /// PlainDateTime::to_zoned_date_time_with_provider
+    DateTimeToZoned,
+    /// PlainDate::to_zoned_date_time_with_provider(Some(time)) (always compatible)
+    DateToZoned,
+    /// ZonedDateTime::from_str_with_provider
+    Str,
+    /// ZonedDateTime::from_partial_with_provider
+    Partial,
+    /// RelativeTo::try_from_str_with_provider (compatible / reject)
+    RelativeToStr,
+}
+
+#[derive(Serialize, Deserialize, Debug, Clone)]
+pub struct Case {
+    pub zone: ZoneKind,
+    pub route: Route,
+    /// instant (Getters) or wall-clock ns on the local line (other routes)
+    pub t: i128,
+    pub dis: Disamb,
+    pub off: OffOpt,
+    pub given: Given,
+    /// the harness provider returns the candidate instants in descending order (the provider trait
+    /// does not promise an order; the bundled provider happens to return overlaps that way)
+    #[serde(default)]
+    pub reverse: bool,
+}
+pub struct Sub;
+
+fn kind_ok(r: &Result<i128, ()>) -> bool {
+    r.is_ok()
+}
+
+/// the specified answer for a wall time with options
+pub fn expected(z: &Zone, wall: i128, given: Given, dis: Disamb, off: OffOpt, match_minutes: bool) -> Result<i128, ()> {
+    let r = match given {
+        Given::Z => Ok(wall),
+        Given::None => z.resolve(wall, dis),
+        Given::Offset(o) => {
+            let o_ns = o as i128 * S;
+            match off {
+                OffOpt::Use => Ok(wall - o_ns),
+                OffOpt::Ignore => z.resolve(wall, dis),
+                OffOpt::Prefer | OffOpt::Reject => {
+                    let mut found = None;
+                    for c in z.instants(wall) {
+                        let co = wall - c;
+                        if co == o_ns || (match_minutes && round_int(co, 60 * S, Mode::HalfExpand) == o_ns) {
+                            found = Some(c);
+                            break;
+                        }
+                    }
+                    match found {
+                        Some(c) => Ok(c),
+                        None if off == OffOpt::Reject => Err(()),
+                        None => z.resolve(wall, dis),
+                    }
+                }
+            }
+        }
+    };
+    match r {
+        Ok(v) if instant_in_range(v) => Ok(v),
+        _ => Err(()),
+    }
+}
+
+fn classify(z: &Zone, wall: i128) -> (&'static str, bool) {
+    let c = z.instants(wall);
+    if c.is_empty() {
+        let (ob, oa) = z.gap_offsets(wall).unwrap_or((0, 0));
+        if (oa - ob).abs() > 3 * 3600 {
+            ("in-gap>3h", true)
+        } else {
+            ("in-gap", true)
+        }
+    } else if c.len() > 1 {
+        ("in-overlap", true)
+    } else {
+        ("unique", false)
+    }
+}
+
+impl SubCheck for Sub {
+    type Case = Case;
+    fn name(&self) -> &'static str {
+        "convert"
+    }
+    fn eval(&self, c: &Case) -> Outcome {
+        let z = c.zone.zone();
+        let tz = c.zone.timezone();
+        let mut prov = c.zone.provider();
+        prov.reverse_candidates = c.reverse;
+        let mut o = Outcome::pass();
+        if c.reverse {
+            o = o.class("provider-candidates-descending");
+        }
+        o = o.class(match c.zone {
+            ZoneKind::Fixed(_) => "zone:fixed-offset",
+            ZoneKind::Table(_) => "zone:table",
+        });
+        match c.route {
+            Route::Getters => {
+                let off = z.offset_at(c.t);
+                let wall = c.t + off as i128 * S;
+                let (day, ns) = (wall.div_euclid(DAY) as i64, wall.rem_euclid(DAY));
+                o = o.class("getters").nontrivial(off % 60 != 0 || off % 3600 != 0 || z.trans.iter().any(|(t, _)| ((*t as i128) * S - c.t).abs() <= 1));
+                if off % 60 != 0 {
+                    o = o.class("offset-with-seconds");
+                }
+                let zdt = match ZonedDateTime::try_new(c.t, iso(), tz) {
+                    Ok(v) => v,
+                    Err(e) => return o.fail("C13/getters/construct", "Ok", err_str(&e)),
+                };
+                if !datetime_in_range(day, ns) {
+                    return o.class("wall-out-of-range");
+                }
+                let ymd = crate::refm::dateadd::Ymd::from_n(day);
+                let (h, mi, s, ms, us, nn) = split_ns(ns);
+                macro_rules! g {
+                    ($call:expr, $want:expr, $name:expr) => {
+                        match $call {
+                            Ok(v) => chk!(o, v == $want, format!("C13/getters/{}", $name), $want, v),
+                            Err(e) => o = o.fail(format!("C13/getters/{}/error", $name), format!("{:?}", $want), err_str(&e)),
+                        }
+                    };
+                }
+                g!(zdt.year_with_provider(&prov), ymd.y as i32, "year");
+                g!(zdt.month_with_provider(&prov), ymd.m, "month");
+                g!(zdt.day_with_provider(&prov), ymd.d, "day");
+                g!(zdt.hour_with_provider(&prov), h, "hour");
+                g!(zdt.minute_with_provider(&prov), mi, "minute");
+                g!(zdt.second_with_provider(&prov), s, "second");
+                g!(zdt.millisecond_with_provider(&prov), ms, "millisecond");
+                g!(zdt.microsecond_with_provider(&prov), us, "microsecond");
+                g!(zdt.nanosecond_with_provider(&prov), nn, "nanosecond");
+                g!(zdt.offset_nanoseconds_with_provider(&prov), off * 1_000_000_000, "offset_nanoseconds");
+                g!(zdt.offset_with_provider(&prov), fmt::offset_seconds(off), "offset-string");
+                match zdt.to_plain_datetime_with_provider(&prov) {
+                    Ok(p) => chk!(o, dt_of(&p) == Dt { day, ns }, "C13/getters/to_plain_datetime", (day, ns), dt_of(&p)),
+                    Err(e) => o = o.fail("C13/getters/to_plain_datetime/error", "Ok", err_str(&e)),
+                }
+                match (zdt.to_plain_date_with_provider(&prov), zdt.to_plain_time_with_provider(&prov)) {
+                    (Ok(d), Ok(t)) => chk!(o, ymd_of(&d) == ymd && time_ns(&t) == ns, "C13/getters/to_plain_date+time", (ymd, ns), (ymd_of(&d), time_ns(&t))),
+                    _ => o = o.fail("C13/getters/to_plain_date+time/error", "Ok", "Err"),
+                }
+            }
+            _ => {
+                let wall = c.t;
+                let (day, ns) = (wall.div_euclid(DAY) as i64, wall.rem_euclid(DAY));
+                let (cl, nt) = classify(&z, wall);
+                o = o.class(cl).nontrivial(nt || c.given != Given::None);
+                let (dis, off, given, match_minutes) = match c.route {
+                    Route::DateTimeToZoned => (c.dis, OffOpt::Ignore, Given::None, false),
+                    Route::DateToZoned => (Disamb::Compatible, OffOpt::Ignore, Given::None, false),
+                    Route::Str => (c.dis, c.off, c.given, true),
+                    Route::Partial => (c.dis, c.off, c.given, true),
+                    Route::RelativeToStr => (Disamb::Compatible, OffOpt::Reject, c.given, true),
+                    Route::Getters => unreachable!(),
+                };
+                o = o.class(match c.route {
+                    Route::DateTimeToZoned => "route:PlainDateTime.toZoned",
+                    Route::DateToZoned => "route:PlainDate.toZoned",
+                    Route::Str => "route:from_str",
+                    Route::Partial => "route:from_partial",
+                    _ => "route:RelativeTo.from_str",
+                });
+                if let Given::Offset(_) = given {
+                    o = o.class(match off {
+                        OffOpt::Use => "offset:use",
+                        OffOpt::Prefer => "offset:prefer",
+                        OffOpt::Ignore => "offset:ignore",
+                        OffOpt::Reject => "offset:reject",
+                    });
+                }
+                if given == Given::Z {
+                    o = o.class("given:Z");
+                }
+                let want = expected(&z, wall, given, dis, off, match_minutes);
+                // the partial route can only carry whole-minute offsets; Temporal matches property-bag offsets
+                // exactly, the crate matches them to the minute: candidates with sub-minute offsets are unjudged there
+                if c.route == Route::Partial {
+                    if let Given::Offset(_) = given {
+                        if z.instants(wall).iter().any(|cand| (wall - cand) % (60 * S) != 0) && matches!(off, OffOpt::Prefer | OffOpt::Reject) {
+                            o.unjudged = true;
+                            o = o.class("unjudged:partial-offset-vs-sub-minute-zone-offset");
+                        }
+                    }
+                }
+                let date = crate::refm::dateadd::Ymd::from_n(day);
+                let got: Result<i128, temporal_rs::TemporalError> = match c.route {
+                    Route::DateTimeToZoned => plain_datetime(Dt { day, ns }).and_then(|p| p.to_zoned_date_time_with_provider(&tz, conv_dis(dis), &prov)).map(|z| z.epoch_nanoseconds().as_i128()),
+                    Route::DateToZoned => plain_date(date).and_then(|p| p.to_zoned_date_time_with_provider(tz.clone(), Some(plain_time(ns).unwrap()), &prov)).map(|z| z.epoch_nanoseconds().as_i128()),
+                    Route::Str | Route::RelativeToStr => {
+                        let mut s = fmt::datetime(day, ns, Prec::Auto);
+                        match given {
+                            Given::None => {}
+                            Given::Z => s.push('Z'),
+                            Given::Offset(sec) => s += &fmt::offset_seconds(sec),
+                        }
+                        s += &format!("[{}]", c.zone.ident());
+                        if c.route == Route::Str {
+                            ZonedDateTime::from_str_with_provider(&s, conv_dis(dis), conv_off(off), &prov).map(|z| z.epoch_nanoseconds().as_i128())
+                        } else {
+                            match temporal_rs::options::RelativeTo::try_from_str_with_provider(&s, &prov) {
+                                Ok(temporal_rs::options::RelativeTo::ZonedDateTime(z)) => Ok(z.epoch_nanoseconds().as_i128()),
+                                Ok(_) => Err(temporal_rs::TemporalError::general("not zoned")),
+                                Err(e) => Err(e),
+                            }
+                        }
+                    }
+                    Route::Partial => {
+                        let (h, mi, sec, ms, us, nn) = split_ns(ns);
+                        let pd = PartialDate::new().with_year(Some(date.y as i32)).with_month(Some(date.m)).with_day(Some(date.d));
+                        let pt = PartialTime::new().with_hour(Some(h)).with_minute(Some(mi)).with_second(Some(sec)).with_millisecond(Some(ms)).with_microsecond(Some(us)).with_nanosecond(Some(nn));
+                        let offset = match given {
+                            Given::Offset(sec) => Some(UtcOffset::from_str(&fmt::offset_minutes(sec / 60)).expect("offset")),
+                            _ => None,
+                        };
+                        let p = PartialZonedDateTime::new().with_date(pd).with_time(pt).with_offset(offset).with_timezone(Some(tz.clone()));
+                        ZonedDateTime::from_partial_with_provider(p, None, Some(conv_dis(dis)), Some(conv_off(off)), &prov).map(|z| z.epoch_nanoseconds().as_i128())
+                    }
+                    Route::Getters => unreachable!(),
+                };
+                if o.unjudged {
+                    return o;
+                }
+                let in_gap = cl.starts_with("in-gap");
+                match (&want, &got) {
+                    (Ok(w), Ok(g)) => {
+                        if g != w {
+                            // narrow defect models are attached by signature
+                            let sig = if in_gap { "C13/convert/gap/mismatch" } else if cl == "in-overlap" { "C13/convert/overlap/mismatch" } else { "C13/convert/unique/mismatch" };
+                            return o.fail(sig, format!("{w}"), format!("{g}"));
+                        }
+                    }
+                    (Err(_), Err(e)) => chk!(o, e.kind() == ErrorKind::Range, "C13/convert/error-kind", "Range", err_str(e)),
+                    (Ok(w), Err(e)) => {
+                        let sig = if cl == "in-gap>3h" { "C13/convert/gap>3h/error" } else { "C13/convert/unexpected-error" };
+                        return o.fail(sig, format!("{w}"), err_str(e));
+                    }
+                    (Err(_), Ok(g)) => return o.fail("C13/convert/accepted", "RangeError", format!("{g}")),
+                }
+                let _ = kind_ok(&want);
+            }
+        }
+        o
+    }
+}
+
+// ------------------------------------------------------------------------------------------
+// zones
+
+fn offset_strategy() -> BoxedStrategy<i64> {
+    prop_oneof![
+        4 => (-15i64..=15).prop_map(|h| h * 3600),
+        3 => (-60i64..=60).prop_map(|q| q * 900),
+        2 => (-54000i64..=54000).prop_map(|s| s / 60 * 60),
+        2 => (-54000i64..=54000),
+    ]
+    .boxed()
+}
+fn shift_strategy() -> BoxedStrategy<i64> {
+    // magnitudes from one minute to 26 hours, both directions, a share with seconds
+    prop_oneof![
+        4 => Just(3600i64),
+        2 => Just(1800i64),
+        2 => (1i64..=180).prop_map(|m| m * 60),
+        2 => (3i64..=26).prop_map(|h| h * 3600),
+        1 => (60i64..=93600),
+        1 => Just(86400i64),
+    ]
+    .prop_flat_map(|m| prop::bool::ANY.prop_map(move |neg| if neg { -m } else { m }))
+    .boxed()
+}
+
+/// synthetic rule table: 1..=12 transitions at least 3 days apart, offsets within +-15 h
+pub fn syn_zone() -> BoxedStrategy<Zone> {
+    (offset_strategy(), -100_000_000_000i64..=90_000_000_000, prop::collection::vec((259_200i64..=400_000_000, shift_strategy()), 1..=12))
+        .prop_map(|(initial, t0, steps)| {
+            let mut trans = vec![];
+            let mut t = t0;
+            let mut off = initial;
+            for (gap, shift) in steps {
+                let mut n = off + shift;
+                if n.abs() > 54000 {
+                    n = off - shift;
+                }
+                if n.abs() > 54000 || n == off {
+                    t += gap;
+                    continue;
+                }
+                trans.push((t, n));
+                off = n;
+                t += gap;
+            }
+            Zone { name: "Test/Synthetic".into(), initial, trans }
+        })
+        .boxed()
+}
+
+/// hand-written tables with the shapes of well-known real zones (the full real rule sets are
+/// exercised through the TZif reader in C15 and in the end-to-end class below when present)
+pub fn shaped_zones() -> Vec<Zone> {
+    vec![
+        Zone { name: "Test/NewYorkLike".into(), initial: -17762, trans: vec![(-2717650800, -18000), (1489302000, -14400), (1509861600, -18000), (1520751600, -14400), (1541311200, -18000)] },
+        Zone { name: "Test/LordHoweLike".into(), initial: 36000, trans: vec![(1475337600, 39600), (1491059400, 37800), (1506787200, 39600)] },
+        Zone { name: "Test/ApiaLike".into(), initial: -36000, trans: vec![(1325239200, 50400), (1333202400, 46800)] },
+        Zone { name: "Test/DublinLike".into(), initial: 3600, trans: vec![(1509238800, 0), (1521939600, 3600)] },
+        Zone { name: "Test/KolkataLike".into(), initial: 21208, trans: vec![(-2019705670, 21200), (-1176456800, 19800)] },
+        Zone { name: "Test/KiritimatiLike".into(), initial: -38400, trans: vec![(788871600, 50400)] },
+    ]
+}
+
+fn zone_kind() -> BoxedStrategy<ZoneKind> {
+    let shaped = shaped_zones();
+    prop_oneof![
+        2 => (-1439i32..=1439).prop_map(ZoneKind::Fixed),
+        1 => proptest::sample::select(vec![0i32, 60, -60, 330, 345, -210, 840, -720, 1439, -1439]).prop_map(ZoneKind::Fixed),
+        6 => syn_zone().prop_map(ZoneKind::Table),
+        3 => proptest::sample::select(shaped).prop_map(ZoneKind::Table),
+    ]
+    .boxed()
+}
+
+fn case() -> BoxedStrategy<Case> {
+    (zone_kind(), 0usize..64, 0u8..8, -172_800i128..=172_800, 0i128..1_000_000_000, 0u8..8, 0u8..4, 0u8..4, 0u8..8, crate::gen::instant_ns())
+        .prop_map(|(zone, ti, place, dsec, dns, route, dis, off, gk, uniform)| {
+            let z = zone.zone();
+            let reverse = route >= 6;
+            let route = [Route::Getters, Route::DateTimeToZoned, Route::DateToZoned, Route::Str, Route::RelativeToStr, Route::Partial, Route::DateTimeToZoned, Route::Str][route as usize];
+            let dis = [Disamb::Compatible, Disamb::Earlier, Disamb::Later, Disamb::Reject][dis as usize];
+            let off = [OffOpt::Use, OffOpt::Prefer, OffOpt::Ignore, OffOpt::Reject][off as usize];
+            // pick the instant / wall time: around a transition, or uniform
+            let n = z.trans.len();
+            let (tr_t, ob, oa) = if n == 0 {
+                (0i128, z.initial, z.initial)
+            } else {
+                let i = ti * n / 64;
+                let before = if i == 0 { z.initial } else { z.trans[i - 1].1 };
+                (z.trans[i].0 as i128 * S, before, z.trans[i].1)
+            };
+            let delta = match place {
+                0 => -1,
+                1 => 0,
+                2 => 1,
+                3 => dns,                     // just after, sub-second
+                4 => dsec * S / 48 + dns,     // within an hour
+                5 | 6 => dsec * S + dns,      // within two days
+                _ => i128::MAX,               // uniform marker
+            };
+            let t = if delta == i128::MAX || n == 0 && place > 4 {
+                uniform.clamp(-MAX_INSTANT + 2 * DAY, MAX_INSTANT - 2 * DAY)
+            } else if route == Route::Getters {
+                tr_t + delta
+            } else {
+                // wall line: anchor at the start of the skipped/repeated interval
+                let lo = ob.min(oa) as i128 * S;
+                let hi = ob.max(oa) as i128 * S;
+                match place % 3 {
+                    0 => tr_t + lo + delta,
+                    1 => tr_t + hi + delta,
+                    _ => tr_t + (lo + hi) / 2 + delta,
+                }
+            };
+            let t = t.clamp(-MAX_INSTANT + 2 * DAY, MAX_INSTANT - 2 * DAY);
+            // an explicit offset: right one, rounded to the minute, the other candidate's, wrong, or Z
+            let given = if matches!(route, Route::Str | Route::Partial | Route::RelativeToStr) {
+                let cands = z.instants(t);
+                let o0 = cands.first().map(|c| ((t - c) / S) as i64).unwrap_or(ob);
+                let o1 = cands.last().map(|c| ((t - c) / S) as i64).unwrap_or(oa);
+                let minute = |s: i64| (round_int(s as i128, 60, Mode::HalfExpand)) as i64;
+                match gk {
+                    0 | 1 => Given::None,
+                    2 => Given::Offset(o0),
+                    3 => Given::Offset(o1),
+                    4 => Given::Offset(minute(o0)),
+                    5 => Given::Offset(minute(o1) + 60),
+                    6 => Given::Offset((o0 + 3600).clamp(-86340, 86340)),
+                    _ => {
+                        if route != Route::Partial {
+                            Given::Z
+                        } else {
+                            Given::Offset(minute(o1))
+                        }
+                    }
+                }
+            } else {
+                Given::None
+            };
+            // keep explicit offsets inside +-23:59(:59)
+            let given = match given {
+                Given::Offset(s) => Given::Offset(s.clamp(-86399, 86399)),
+                g => g,
+            };
+            // the partial route carries whole minutes only
+            let given = match (route, given) {
+                (Route::Partial, Given::Offset(s)) => Given::Offset(s / 60 * 60),
+                (_, g) => g,
+            };
+            Case { zone, route, t, dis, off, given, reverse }
+        })
+        .boxed()
+}
+
+pub fn run(ctx: &mut Ctx) {
+    ctx.rule = "zones: every kind of fixed offset (TimeZone::UtcOffset), synthetic rule tables (1-12 transitions >= 3 days apart anywhere in +-1e11 s, offsets within +-15 h incl. non-zero seconds, shifts from 1 minute to 26 h in both directions) and hand-written tables shaped like New York / Lord Howe / Apia (24 h skip) / Dublin (negative DST) / Kolkata (LMT seconds) / Kiritimati, served through the harness TimeZoneProvider. points: within +-2 days of a transition (at the edges +-1 ns, inside gaps and overlaps) or uniform. routes: ZonedDateTime getters of an instant; PlainDateTime/PlainDate.toZonedDateTime; from_str and from_partial with an explicit offset (correct, rounded to the minute, the other candidate's, wrong) or Z x 4 disambiguations x 4 offset options. oracle: brute force over the rule table + Temporal's disambiguation/offset rules. non-trivial = wall time inside a gap or overlap, explicit offset or Z present, shift > 3 h, offset with non-zero minutes/seconds.".into();
+    ctx.assumptions = vec![
+        "provider contract: candidates ascending; transition_epoch = second at which the offset in force began (tzp.rs)".into(),
+        "rule sets whose gaps/overlaps interact (transitions closer than 3 days) are excluded by construction".into(),
+    ];
+    ctx.run_prop(&Sub, &case, ctx.tier.pick(600_000, 20_000_000));
+}
+
+pub fn replay(ctx: &mut Ctx, sub: &str, case: &Value) -> bool {
+    match sub {
+        "convert" => ctx.replay_case(&Sub, case),
+        _ => false,
+    }
 }
